@@ -96,8 +96,30 @@ def run(res, tier, br, model_ok=True, search=False):
         ("hand2.c", "#include <unistd.h>\n\n// prints one character\nvoid\tft_putchar(char c)\n{\n\twrite(1, &c, 1);\n}\n"),
         ("hand3.c", "int\tg_slots[SLOTS(2)];\nint\t(*g_fp)(int) = 0;\n\nint\tf1(void)\n{\n\treturn (1);\n}\n\nint\tf2(void)\n{\n\t// note\n\treturn (2);\n}\n\nint\tf3(void)\n{\n\treturn (3);\n}\n\nint\tf4(void)\n{\n\treturn (4);\n}\n"),
     ]
-    for name, src in hand:
+    five = "".join(f"\nint\tf{i}(void)\n{{\n\treturn ({i});\n}}\n" for i in range(2, 6))
+    hand += [
+        # files whose first statement is a block comment (it joins the header's comment block)
+        ("hand4.c", "/*\n** my file\n*/\n\nint\tf1(void)\n{\n\treturn (1);\n}\n"),
+        ("hand5.c", "/* x */\nint\tg_a;\n/* y */ int\tg_b;\n"),
+        # preprocessor-conditional declarators sharing one body, function count at the limit
+        ("hand6.c", "#include <unistd.h>\n\n#ifdef WIDE\n\nlong\tft_first(long n)\n#else\n\nint\tft_first(int n)\n#endif\n{\n\treturn (n);\n}\n" + five),
+        ("hand7.c", "#include <unistd.h>\n#ifdef WIDE\nlong\tft_first(long n)\n#else\nint\tft_first(int n)\n#endif\n{\n\treturn (n);\n}\n" + five + "\nint\tf6(void)\n{\n\treturn (6);\n}\n"),
+        ("hand8.h", "#ifndef HAND8_H\n# define HAND8_H\n\n# ifdef WIDE\ntypedef long\tt_n;\n# else\ntypedef int\tt_n;\n# endif\n\nt_n\tf1(t_n a);\n\n#endif\n"),
+    ]
+    nhand = len(hand)
+    hand += [(n, s_) for n, s_ in (families.repo_samples() if big else families.repo_samples()[::3])
+             if not s_.startswith("/* ****") and not s_.startswith("\n") and s_.strip()]
+    for hi, (name, src) in enumerate(hand):
         o0, d0, _ = meta.diags(name, src)
+        # the header directly in front, and (below) with an empty line after it
+        oh, dh, _ = meta.diags(name, header.header42(name) + src)
+        res.count("hand", 1)
+        wanth = sorted((lv, c, l + 11, col) for lv, c, l, col in d0 if c != "INVALID_HEADER")
+        if o0 == "ok" and not src.startswith("//") and (oh != "ok" or dh != wanth):
+            res.report("header:shift", f"{name}: with the header directly in front: unexpected {[x for x in dh if x not in wanth][:3]}, missing {[x for x in wanth if x not in dh][:3]}",
+                       {"kind": "header", "name": name, "src": src})
+        if hi >= nhand:
+            continue        # repository samples: only the header directly in front (their function counts and endings vary)
         new = header.header42(name) + "\n" + src
         o1, d1, _ = meta.diags(name, new)
         res.count("hand", 1)
@@ -106,6 +128,9 @@ def run(res, tier, br, model_ok=True, search=False):
             res.report("header:shift", f"{name}: with header+blank line: unexpected {[x for x in d1 if x not in want][:3]}, missing {[x for x in want if x not in d1][:3]}",
                        {"kind": "header12", "name": name, "src": src})
         fn = "\nint\tzz_extra(int a)\n{\n\treturn (a);\n}\n"
+        if (("\n" + src).count("\n{\n") >= 5 or name.endswith(".h") or not src.endswith("}\n")
+                or any(x[1] == "TOO_MANY_FUNCS" for x in d0)):
+            continue        # appending is only claimed for files with fewer than five functions
         o2, d2, _ = meta.diags(name, src + fn)
         if o0 == "ok" and (o2 != "ok" or d2 != d0):
             res.report("append:changed", f"{name}: appending a conforming function: new {[x for x in d2 if x not in d0][:3]}, gone {[x for x in d0 if x not in d2][:3]}",
